@@ -40,7 +40,25 @@ func (c *Capture) DispatchEvent(ctx context.Context, e *gostatsd.Event) {
 	c.mu.Unlock()
 }
 func (c *Capture) EstimatedTags() int { return 0 }
-func (c *Capture) WaitForEvents()     {}
+
+// Reset forgets what was captured so far.
+func (c *Capture) Reset() {
+	c.mu.Lock()
+	c.Maps, c.Events = nil, nil
+	c.mu.Unlock()
+}
+
+// First returns the first captured map (nil if none) and all captured events.
+func (c *Capture) First() (*gostatsd.MetricMap, []*gostatsd.Event) {
+	c.mu.Lock()
+	defer c.mu.Unlock()
+	var mm *gostatsd.MetricMap
+	if len(c.Maps) > 0 {
+		mm = c.Maps[0]
+	}
+	return mm, append([]*gostatsd.Event(nil), c.Events...)
+}
+func (c *Capture) WaitForEvents() {}
 
 type capStatser struct {
 	stats.Statser
